@@ -262,11 +262,8 @@ def check_load(res: Result, props: Set[str], si: int, op: Dict[str, Any], r: Dic
         shift = exp[loaded_ranks[0]]["shift"] if loaded_ranks else Fraction(0)
         if not refmodel.num_eq(obs.get("min_ts"), shift):
             res.violate("C01", "min_ts", {"got": obs.get("min_ts"), "want": str(shift)}, si, r["i"])
-        if "profiler_steps" in obs and loaded_ranks:
-            first = str(loaded_ranks[0])
-            if obs["profiler_steps"] != obs["iterations"].get(first):
-                res.violate("C12", "get_profiler_steps", {"got": obs["profiler_steps"],
-                                                          "iterations": obs["iterations"].get(first)}, si, r["i"])
+        # (get_profiler_steps is derived from the step annotation rows of all ranks, not from the
+        #  iteration column of one rank; the property does not relate the two, so it is not compared)
     if not obs.get("sym_index_ok", True):
         res.violate("C11", "symbol-table-not-bijective/after-load", {}, si, r["i"])
 
